@@ -1,12 +1,16 @@
 """Run loop: endpoints are generators stepped one at a time by the Chooser."""
 
 import hashlib
+import os
 
 from . import kernel
 
+_TB = bool(os.environ.get("VERIF_TB"))     # debugging aid only
+
 
 class Outcome(object):
-    __slots__ = ("desc", "kind", "value", "exc", "t0", "t1", "steps", "post")
+    __slots__ = ("desc", "kind", "value", "exc", "t0", "t1", "steps", "post",
+                 "nvalues")
 
     def __init__(self, desc):
         self.desc = desc
@@ -16,6 +20,9 @@ class Outcome(object):
         self.t0 = self.t1 = None
         self.steps = 0
         self.post = None
+        # how many result values (anything but the 0 / 1 "blocked" tokens)
+        # the generator yielded: the documented protocol allows one, last
+        self.nvalues = 0
 
     def sig(self):
         """Comparable summary of an operation's result."""
@@ -105,6 +112,7 @@ class Endpoint(object):
                 while not (type(r) is int and (r == 0 or r == 1)):
                     # a result value; the generator is expected to end now
                     out.value = r
+                    out.nvalues += 1
                     r = next(self.op)
         except StopIteration:
             out.kind = "ok"
@@ -115,6 +123,9 @@ class Endpoint(object):
         except BaseException as e:
             if not isinstance(e, Exception):
                 raise       # the driver's wall-clock timeout, not an outcome
+            if _TB:
+                import traceback
+                traceback.print_exc()
             out.kind = "exc"
             out.exc = e
             self._finish()
@@ -142,6 +153,24 @@ class Endpoint(object):
                 pass
             self.cur.kind = "cancelled"
             self._finish()
+
+
+class Lane(Endpoint):
+    """A second operation lane of an existing endpoint: the application keeps
+    a writer going next to a parked reader on the SAME connection (full
+    duplex use of the generator API / a reader and a writer thread)."""
+
+    def __init__(self, ep):
+        self.sim = ep.sim
+        self.name = ep.name
+        self.sock = ep.sock
+        self.node = ep.node
+        self.conn = ep.conn
+        self.op = None
+        self.cur = None
+        self.blocked = None
+        self.history = []
+        ep.sim.eps.append(self)
 
 
 class kernel_abort(Exception):
